@@ -107,49 +107,51 @@ func checkGenericRedaction(c *fw.Ctx) {
 	// (a) every map update into the new content copies a value obtained by a comma-ok lookup
 	//     under the same key, and is guarded by that lookup's ok flag.
 	updates := 0
-	for _, b := range generic.Blocks {
-		for _, ins := range b.Instrs {
-			mu, ok := ins.(*ssa.MapUpdate)
-			if !ok {
-				continue
-			}
-			updates++
-			construct := "content copy keeps key and value"
-			val := fw.Unwrap(mu.Value)
-			ex, isEx := val.(*ssa.Extract)
-			var lk *ssa.Lookup
-			if isEx {
-				lk, _ = ex.Tuple.(*ssa.Lookup)
-			}
-			if lk == nil || !lk.CommaOk || ex.Index != 0 {
-				c.Fail(rule, construct, c.P.Pos(fw.InstrPos(mu)), "the value stored into the redacted content is not the value of a comma-ok lookup in the original content")
-				continue
-			}
-			if lk.Index != mu.Key {
-				c.Fail(rule, construct, c.P.Pos(fw.InstrPos(mu)), "the value is stored under a different key than it was read from")
-				continue
-			}
-			// guarded by ok of the same lookup
-			guarded := false
-			for d := b; d != nil && !guarded; d = d.Idom() {
-				id := d.Idom()
-				if id == nil {
-					break
-				}
-				iff, isIf := id.Instrs[len(id.Instrs)-1].(*ssa.If)
-				if !isIf {
+	for _, rf := range fw.RegionOf(generic, nil) {
+		for _, b := range rf.Blocks {
+			for _, ins := range b.Instrs {
+				mu, ok := ins.(*ssa.MapUpdate)
+				if !ok {
 					continue
 				}
-				cv, neg := fw.BoolCond(iff.Cond)
-				if e2, ok := cv.(*ssa.Extract); ok && e2.Tuple == ssa.Value(lk) && e2.Index == 1 && !neg && id.Succs[0] == d {
-					guarded = true
+				updates++
+				construct := "content copy keeps key and value"
+				val := fw.Unwrap(mu.Value)
+				ex, isEx := val.(*ssa.Extract)
+				var lk *ssa.Lookup
+				if isEx {
+					lk, _ = ex.Tuple.(*ssa.Lookup)
 				}
+				if lk == nil || !lk.CommaOk || ex.Index != 0 {
+					c.Fail(rule, construct, c.P.Pos(fw.InstrPos(mu)), "the value stored into the redacted content is not the value of a comma-ok lookup in the original content")
+					continue
+				}
+				if lk.Index != mu.Key {
+					c.Fail(rule, construct, c.P.Pos(fw.InstrPos(mu)), "the value is stored under a different key than it was read from")
+					continue
+				}
+				// guarded by ok of the same lookup
+				guarded := false
+				for d := b; d != nil && !guarded; d = d.Idom() {
+					id := d.Idom()
+					if id == nil {
+						break
+					}
+					iff, isIf := id.Instrs[len(id.Instrs)-1].(*ssa.If)
+					if !isIf {
+						continue
+					}
+					cv, neg := fw.BoolCond(iff.Cond)
+					if e2, ok := cv.(*ssa.Extract); ok && e2.Tuple == ssa.Value(lk) && e2.Index == 1 && !neg && id.Succs[0] == d {
+						guarded = true
+					}
+				}
+				if !guarded {
+					c.Fail(rule, "content copy is keyed on presence", c.P.Pos(fw.InstrPos(mu)), "the copy of a kept content key is not guarded by the presence flag of the lookup (a present key with a null/zero value would be dropped, or an absent key materialised)")
+					continue
+				}
+				c.Ok(rule, construct, c.P.Pos(fw.InstrPos(mu)), "value of comma-ok lookup, same key, guarded by ok")
 			}
-			if !guarded {
-				c.Fail(rule, "content copy is keyed on presence", c.P.Pos(fw.InstrPos(mu)), "the copy of a kept content key is not guarded by the presence flag of the lookup (a present key with a null/zero value would be dropped, or an absent key materialised)")
-				continue
-			}
-			c.Ok(rule, construct, c.P.Pos(fw.InstrPos(mu)), "value of comma-ok lookup, same key, guarded by ok")
 		}
 	}
 	c.Min(rule+" content copies", updates, 1)
@@ -247,13 +249,24 @@ func checkRedactedFlows(c *fw.Ctx) {
 		if fn == nil {
 			continue
 		}
-		stores := fw.FieldStores(fn, "VerifyJSONRequest", "Message")
+		stores := regionFieldStores(fn, "VerifyJSONRequest", "Message")
+		isJSON := fw.IsResultOf(func(n string) bool { return strings.HasSuffix(n, ").JSON") }, 0)
+		nred := 0
 		for _, st := range stores {
-			c.Check(fw.DerivesFrom(st.Val, fromRedaction), rule, spec+": VerifyJSONRequest.Message is the redacted event", c.P.Pos(fw.InstrPos(st)), "", "a verification request is built over bytes that do not derive from RedactEventJSON")
+			if fw.DerivesFrom(st.Val, fromRedaction) {
+				nred++
+				c.Ok(rule, spec+": VerifyJSONRequest.Message is the redacted event", c.P.Pos(fw.InstrPos(st)), "")
+				continue
+			}
+			// requests over other payloads (e.g. the mxid mapping of pseudo-ID rooms) are not event
+			// signatures; a request over the event's JSON that bypasses the redaction is the violation
+			if fw.DerivesFrom(st.Val, fw.FlowSpec{IsSource: isJSON}) {
+				c.Fail(rule, spec+": VerifyJSONRequest.Message is the redacted event", c.P.Pos(fw.InstrPos(st)), "a verification request is built over the event's JSON without passing it through RedactEventJSON")
+			}
 		}
-		c.Min(rule+" "+spec+" request sites", len(stores), 1)
+		c.Min(rule+" "+spec+" request sites", nred, 1)
 		// and the redaction input is the event's own JSON
-		for _, call := range fw.CallsTo(fn, false, redactName) {
+		for _, call := range regionCallsTo(fn, redactName) {
 			arg := call.Common().Args
 			if len(arg) == 0 {
 				continue
@@ -291,6 +304,27 @@ func checkRedactMethods(c *fw.Ctx) {
 			}
 		}
 		c.Check(okT, rule, spec+" marks the event redacted", c.P.Pos(fn.Pos()), "", "Redact() never sets redacted = true")
+		// no way through Redact() avoids the room version's redaction, except when the event is
+		// already marked redacted; in particular the flag is never set without it
+		must := fw.MustCallSites(fn, redactName)
+		nret := 0
+		for _, r := range fw.Returns(fn) {
+			already := false
+			for _, f := range fw.DomConds(r.Block()) {
+				if f.Taken && strings.HasSuffix(f.Sig, ".redacted") {
+					already = true
+				}
+			}
+			if already {
+				continue
+			}
+			nret++
+			c.Check(!fw.PathAvoiding(fn.Blocks[0], must, r), rule, spec+" always applies the room version's redaction", c.P.Pos(fw.InstrPos(r)), "", "Redact() can return without having run RedactEventJSON although the event was not marked redacted: top-level keys outside the keep-list survive")
+		}
+		c.Min(rule+" "+spec+" returns", nret, 1)
+		for _, st := range rs {
+			c.Check(!fw.PathAvoiding(fn.Blocks[0], must, st), rule, spec+" sets the redacted flag only after redacting", c.P.Pos(fw.InstrPos(st)), "", "redacted = true can be stored on a path that never ran RedactEventJSON")
+		}
 		// roomVersion carried over
 		rv := fw.FieldStores(fn, "eventV1", "roomVersion")
 		c.Check(len(rv) >= 1, rule, spec+" keeps the room version", c.P.Pos(fn.Pos()), "", "Redact() does not carry roomVersion over to the redacted event")
